@@ -119,7 +119,11 @@ class World:
         if t == "kset":
             return KeyedSet([self._gamma(x) for x in v["e"]])
         if t == "obj":
-            return self.classes[v["c"]](**{k: self._gamma(x) for k, x in v["a"].items() if x["t"] != "missing"})
+            ofl = self.scn["classes"][v["c"]].get("overflow", "")
+            kwargs = {k: self._gamma(x) for k, x in v["a"].items() if x["t"] != "missing" and k != ofl}
+            if ofl and v["a"].get(ofl, {}).get("t") == "dict":          # the overflow mapping is filled by passing its entries as (unknown) keywords
+                kwargs.update({e["k"]["s"]: self._gamma(e["v"]) for e in v["a"][ofl]["e"]})
+            return self.classes[v["c"]](**kwargs)
         raise ValueError(v)
 
     # ---- alpha: real object -> PyVal
